@@ -204,7 +204,7 @@ Proof.
   assert (Hclose : forall now c0 x, In x (closes now c0) ->
             (forall q f a d, x <> ODgram q f a d) /\ (forall ch0 d, x <> OFrame ch0 CMD_DNS_REQ d)).
   { intros now c0 x Hx. destruct (in_closes _ _ _ Hx) as [ch ->]. split; intros; discriminate. }
-  destruct e as [now src dst payload|now src dst payload|now fam dst|ch data sr]; [| | |discriminate]; cbn [cstep] in E.
+  destruct e as [now src dst payload|now src dst payload|now fam dst|ch data sr|tch]; [| | |discriminate|discriminate]; cbn [cstep] in E.
   - (* ondns *)
     destruct Hcfg as [Hc1 Hc2].
     assert (Hskip : cc_method cfg = MTproxy -> dst = None -> c' = c /\ o = []).
@@ -652,7 +652,7 @@ Section SystemDns.
   Proof.
     intros D He. destruct e as [ce|now k ready io|sr].
     - (* ondns *)
-      destruct ce as [now src dst payload| | |]; try contradiction. clear He.
+      destruct ce as [now src dst payload| | | |]; try contradiction. clear He.
       destruct (cstep_ok cc (y_c y) (EDns now src dst payload) Hcfg (di_c _ D) Logic.I) as (c1 & o1 & E1 & _).
       split; [intros x Hx; cbn [raises] in Hx; rewrite E1 in Hx; discriminate|].
       intros y' ob E. unfold ystep in E; cbn [ystep_fx is_accept] in E. rewrite E1 in E. inversion E; subst y' ob; clear E.
